@@ -49,12 +49,18 @@ def make_item(seed, k, variant=None):
         if rng.random() < 0.25:      # this earlier call aborts in the middle of the run (the objective raises after a budget)
             e["_raise_after"] = int(cfg["population_size"] * rng.choice([1.5, 2.5, 4.5]))
         earlier.append(e)
+    same_task = False
+    if random.Random(f"c08same/{seed}/{k}").random() < 0.2:
+        # the judged call on the used instance solves the very Task OBJECT of its last earlier call again
+        e = json.loads(json.dumps(final))
+        earlier[-1] = e
+        same_task = True
     cfg0 = None
     if rng.random() < 0.3:      # the earlier runs used another configuration; set_config_parameters(cfg) precedes the judged call
         c0, _ = universe.make_config(rng, opt, perturbed=True, max_cycles=rng.choice([2, 4, 6]))
         if c0 != cfg:
             cfg0 = c0
-    return {"k": k, "opt": opt, "cfg": cfg, "cfg0": cfg0, "final": final, "earlier": earlier, "stopkind": stopkind}
+    return {"k": k, "opt": opt, "cfg": cfg, "cfg0": cfg0, "final": final, "earlier": earlier, "stopkind": stopkind, "same_task": same_task}
 
 
 def work(item, opts):
@@ -65,8 +71,10 @@ def work(item, opts):
     out = {"k": item["k"], "opt": item["opt"], "viol": [], "earlier_status": [], "stopped_by": []}
     try:
         used = cls(Cfg(**(item.get("cfg0") or item["cfg"])))
+        last_task = None
         for j, e in enumerate(item["earlier"]):
-            st, payload = optimize_plain(used, build(e, rid + f"-e{j}"), mode="serial", workers=2)
+            last_task = build(e, rid + f"-e{j}")
+            st, payload = optimize_plain(used, last_task, mode="serial", workers=2)
             out["earlier_status"].append(st)
             if st == "ok":
                 n = len(payload.rates)
@@ -90,7 +98,8 @@ def work(item, opts):
         mon.armed = armed
         hooks.attr_hooks(True)
         try:
-            st_u, res_u = optimize_plain(used, build(item["final"], rid + "-u"), mode="serial", workers=2, mon=mon)
+            t_u = last_task if item.get("same_task") else build(item["final"], rid + "-u")
+            st_u, res_u = optimize_plain(used, t_u, mode="serial", workers=2, mon=mon)
         finally:
             hooks.attr_hooks(False)
         st_f, res_f = optimize_plain(fresh, build(item["final"], rid + "-f"), mode="serial", workers=2)
@@ -152,7 +161,8 @@ def check(prop, tier, seed):
                         "config": it["cfg"], "fields_armed": r.get("armed"), "stale_reads": r.get("stale_fields")})
     rep.extra.update({"histories_judged": judged, "optimizers_observed": len(opts_seen), "armed_fields_total": armed_total,
                       "earlier_runs_stopped_by": stopped, "histories_by_length": hist,
-                      "earlier_runs_aborted_mid_run_by_a_raising_objective": aborted})
+                      "earlier_runs_aborted_mid_run_by_a_raising_objective": aborted,
+                      "histories_whose_judged_call_reuses_the_task_object_of_the_earlier_call": sum(1 for it in items if it.get("same_task"))})
     rep.rule = ("history = 1 or 2 earlier optimize() calls (same or different task, ended by max_cycles / fitness_error / "
                 "early stopping) on one instance, then the judged call; oracle 1: canonical result == fresh instance's; "
                 "oracle 2: stale read of an armed field; non-trivial = earlier and final runs completed with >= 1 cycle")
